@@ -94,6 +94,12 @@ var c13Extra = []Prog{
 	{"[intersect(l, l), l]", "map", false, false},
 	{"string(l) + string(union(l, [1])) + string(l)", "map", false, false},
 	{"l[2] + len(diff(l, [2]))", "struct", false, false},
+	{"[\"a\": 1, \"a\": 2, \"b\": 3]", "none", false, false},
+	{"string([\"a\": 1, \"b\": 3, \"a\": 2])", "none", false, false},
+	{"[n: \"x\", 42: \"y\", 41 + 1: \"z\"]", "map", false, false},
+	{"len([1: 1, 1: 2, 2: 3]) + get([1: 1, 1: 2], 1, 0)", "none", false, false},
+	{"[m == m, mi == mi, mo == mo, [m, m] == [m, m]]", "map", false, false},
+	{"[isset(mo, \"u\"), isset(mo, \"zz\"), get(mo, \"v\", o).id]", "struct", false, false},
 	{"n + 1", "hetero1", false, false},
 	{"len(hm) + n", "hetero1", false, false},
 	{"hm[\"a\"][0] + n", "hetero1", false, false},
